@@ -925,7 +925,7 @@ func verifExpectCovers(out, id, class string, row int, ks []int) {
 	verifapi.Assert(verifLineCovers(verifLine(out, row), ks), id)
 }
 
-var verifUserNames = []string{"def-before-calls", "calls-before-def", "default-parameter", "keyword-parameter", "explicit-return", "call-inside-another-method", "body-operation", "three-call-sites"}
+var verifUserNames = []string{"def-before-calls", "calls-before-def", "default-parameter", "keyword-parameter", "explicit-return", "call-inside-another-method", "body-operation", "three-call-sites", "calls-before-and-after-def", "caller-method-defined-before-callee", "keyword-calls-before-and-after-def"}
 
 func VerifUserMethod(n int) {
 	sk := verifapi.Concrete(verifapi.Int("skeleton", 0, len(verifUserNames)-1))
@@ -953,6 +953,12 @@ func VerifUserMethod(n int) {
 		src = "def f(v)\nv + 1\nend\nf(Sym.a)\nf(Sym.b)\n"
 	case 7:
 		src = "def f(v)\ndbtp v\nv\nend\nf(Sym.a)\nf(Sym.b)\nf(1.5)\n"
+	case 8:
+		src = "r1 = f(Sym.a)\ndef f(v)\ndbtp v\nv\nend\nr2 = f(Sym.b)\ndbtp r2\n"
+	case 9:
+		src = "def g(w)\nf(w)\nend\ndef f(v)\ndbtp v\nv\nend\nr1 = g(Sym.a)\nr2 = f(Sym.b)\ndbtp r2\n"
+	case 10:
+		src = "r1 = f(k: Sym.a)\ndef f(k:)\ndbtp k\nk\nend\nr2 = f(k: Sym.b)\ndbtp r2\n"
 	}
 	verifapi.Witness("src", src)
 	out := verifRun(src)
@@ -992,6 +998,16 @@ func VerifUserMethod(n int) {
 		}
 	case 7:
 		verifExpectCovers(out, "C15-param", cls("parameter-type-misses-a-call-site"), 2, []int{s.ka, s.kb, base.VkFloat})
+	case 8, 10:
+		verifExpectCovers(out, "C15-param", cls("parameter-type-misses-a-call-site"), 3, ab)
+		verifExpectCovers(out, "C15-ret1", cls("call-result-misses-argument-type"), 7, []int{s.kb})
+		verifapi.Witness("C15-noerr.row", "6")
+		verifapi.Witness("C15-noerr.demand", "none")
+		verifapi.Classify(cls("call-site-rejected-against-another-call-sites-type"))
+		verifapi.Assert(verifLine(out, 6) == "", "C15-noerr")
+	case 9:
+		verifExpectCovers(out, "C15-param", cls("parameter-type-misses-a-call-site"), 5, ab)
+		verifExpectCovers(out, "C15-ret1", cls("call-result-misses-argument-type"), 10, []int{s.kb})
 	}
 }
 
